@@ -32,12 +32,21 @@ def generate(rng, n, tier, stats):
         dtype = rng.choice(['f', 'f', 'f', 'i', 'b'] if name in ('all', 'any', 'sum', 'min', 'max') else ['f', 'f', 'i'])
         nd = rng.randint(1, 4)
         lens = [rng.randint(1, 4) for _ in range(nd)]
+        single = rng.random() < 0.2
+        if single and dtype == 'f' and rng.random() < 0.5: name = rng.choice(['median', 'median', 'mean', 'min'])
+        if single:
+            # single-element / single-slice results: every dimension but one has size 1
+            keep = rng.randrange(nd)
+            lens = [l if j == keep else 1 for j, l in enumerate(lens)]
+            if lens[keep] == 1: lens[keep] = rng.randint(2, 4)
+        stats['shape_family']['single_element_result' if single else 'random'] += 1
         a = rand_array(rng, stats=stats, dtype=dtype, ndim=nd, lens=lens, attrs=rng.random() < 0.5)
         size = len(a['flat'])
         if dtype == 'f':
             pool = [x / 2.0 for x in range(-6, 12)] if name != 'prod' else [1.0, 2.0, 0.5, -1.0, 4.0, 0.0]
             a['flat'] = [rng.choice(pool) for _ in range(size)]
             pat = rng.choice(['none', 'none', 'some', 'slice', 'all'])
+            if single and name == 'median': pat = rng.choice(['some', 'some', 'none'])
             stats['nan_pattern'][pat] += 1
             if pat == 'some': a['flat'] = [float('nan') if rng.random() < 0.25 else v for v in a['flat']]
             elif pat == 'slice' and nd >= 1:
@@ -51,8 +60,9 @@ def generate(rng, n, tier, stats):
         if name in ('all', 'any') and skipna: skipna = False     # masked all/any of NaN: outside the modelled domain
         if dtype == 'b' and skipna: skipna = False
         form = rng.choice(['name', 'pos', 'none', 'tuple'])
-        if form == 'name': ax = a['dims'][rng.randrange(nd)]
-        elif form == 'pos': ax = rng.randrange(nd)
+        if single and form in ('none', 'tuple'): form = rng.choice(['name', 'pos'])
+        if form == 'name': ax = a['dims'][keep if single else rng.randrange(nd)]
+        elif form == 'pos': ax = keep if single else rng.randrange(nd)
         elif form == 'none': ax = None
         else:
             k = rng.randint(1, nd); idx = rng.sample(range(nd), k)
